@@ -76,6 +76,7 @@ type Options struct {
 	WrkStartID     uint64
 	BeaconStartID  uint64
 	Whitelist      []int
+	ExtraDenomsAll []string // further denominations every account holds 10^63 of
 	ExtraDenoms    []string                              // further denominations in the genesis supply (held by account 0)
 	GenesisPOs     []enttypes.EnterpriseUndPurchaseOrder // purchase orders present in the genesis document
 	ExtraWhitelist []string
@@ -169,6 +170,9 @@ func GenesisState(a *app.App, o Options, accts []Acct) []byte {
 			sdk.NewCoin(Denom2, math.NewInt(1_000_000_000_000)),
 			sdk.NewCoin(DenomBig, huge),
 		)
+		for _, d := range o.ExtraDenomsAll {
+			coins = coins.Add(sdk.NewCoin(d, huge))
+		}
 		if ai == 0 {
 			for _, d := range o.ExtraDenoms {
 				coins = coins.Add(sdk.NewCoin(d, math.NewInt(1_000_000)))
